@@ -171,6 +171,34 @@ example : (queryNow ⟨true, false⟩ (runSteps ⟨true, false⟩ (init true)
 example : (queryNow repaired (runSteps repaired (init true)
     [.fs .rmdir, .cache .watcherTake, .fs .mkdir, .fs .writeSpec, .cache .scan, .fs .rmdir])).stale = false := by decide
 
+/-! ### From the creation of the cache on -/
+
+/-- the state before the cache exists: nothing is watched or believed, nothing has been scanned; whatever
+the directory holds is unknown to the cache (stale iff the directory exists) -/
+def preInit (dirExists : Bool) : St :=
+  { dirExists := dirExists, kwatch := false, tracked := false, seen := false, stale := dirExists, pend := false, queue := [] }
+
+theorem inv_preInit (d : Bool) : inv repaired (preInit d) = true := by cases d <;> decide
+
+/-- creating the cache is the first `query` step from `preInit` (update() installs the watch and asks for
+the scan), followed at some point by the `scan` step: the same state as `init` when nothing happens in between -/
+example (d : Bool) : queryNow repaired (preInit d) = { init d with seen := d } := by cases d <;> decide
+
+/-- **C11 (from the creation of the cache on)**: the file system may change at any moment of the cache's
+construction — before the watch is installed, between the installation of the watch and the initial scan,
+after it — and of everything that follows; once the queue is drained and no scan is pending, the next query
+is not stale.  (The watch is installed before the initial scan: `update` precedes `scan` in `query`.) -/
+theorem C11_converges_from_creation (dirExists0 : Bool) (schedule : List Step) :
+    let s := runSteps repaired (preInit dirExists0) schedule
+    s.queue = [] → s.pend = false → (queryNow repaired s).stale = false := by
+  intro s hq hp
+  have hinv : inv repaired s = true := inv_run _ schedule (inv_preInit dirExists0)
+  obtain ⟨de, kw, tr, se, stl, pe, q⟩ := s
+  simp only at hq hp
+  subst hq hp
+  revert hinv
+  cases de <;> cases kw <;> cases tr <;> cases se <;> cases stl <;> decide
+
 end Cdi.Watch
 
 /-! ## Any number of configured directories
@@ -422,6 +450,48 @@ theorem C11_converges_multi (n : Nat) (exists0 : Nat → Bool) (schedule : List 
     have hinv' : inv repaired (proj repaired d s) = true := hinv
     have hqq : (proj repaired d s).queue = [] := by simp [proj, hq]
     have hpp : (proj repaired d s).pend = false := hp
+    have hstale : ((updateAll repaired n s.dir).1 d).stale = (s.dir d).stale := by
+      simp only [updateAll, hd, if_true, dupdate]
+      split
+      · rfl
+      · split <;> rfl
+    rw [hstale]
+    revert hinv' hdd
+    simp only [inv, hasPass, rmdirs, dupdate, proj, repaired, hq, hp, List.map_nil]
+    generalize s.dir d = x
+    obtain ⟨de, kw, tr, se, stl⟩ := x
+    cases de <;> cases kw <;> cases tr <;> cases se <;> cases stl <;> simp
+  · simp [mstep]
+
+/-- before the cache exists, for every directory -/
+def mpreInit (exists_ : Nat → Bool) : MSt :=
+  { dir := fun d => ⟨exists_ d, false, false, false, exists_ d⟩, pend := false, queue := [] }
+
+theorem minv_preInit (exists_ : Nat → Bool) (d : Nat) : inv repaired (proj repaired d (mpreInit exists_)) = true := by
+  have : proj repaired d (mpreInit exists_) = preInit (exists_ d) := by simp [proj, mpreInit, preInit]
+  rw [this]; exact inv_preInit _
+
+/-- **C11 for any number of directories, from the creation of the cache on** -/
+theorem C11_converges_multi_from_creation (n : Nat) (exists0 : Nat → Bool) (schedule : List MStep) (d : Nat) (hd : d < n) :
+    let s := mrun repaired n (mpreInit exists0) schedule
+    s.queue = [] → s.pend = false → ((mqueryNow repaired n s).dir d).stale = false := by
+  intro s hq hp
+  have hinv := minv_run n (mpreInit exists0) schedule d hd (minv_preInit exists0 d)
+  unfold mqueryNow
+  have hquery : mstep repaired n s .query = some { s with dir := (updateAll repaired n s.dir).1, pend := (updateAll repaired n s.dir).2 } := by
+    simp [mstep, hp]
+  rw [hquery]
+  simp only [Option.getD_some]
+  cases hdue : (updateAll repaired n s.dir).2
+  · have hscan : mstep repaired n { dir := (updateAll repaired n s.dir).1, pend := false, queue := s.queue } .scan = none := by
+      simp [mstep]
+    rw [hscan]
+    simp only [Option.getD_none]
+    have hdd : (dupdate repaired (s.dir d)).2 = false := by
+      cases hx : (dupdate repaired (s.dir d)).2
+      · rfl
+      · have := due_of_mem repaired n s.dir d hd hx; rw [hdue] at this; cases this
+    have hinv' : inv repaired (proj repaired d s) = true := hinv
     have hstale : ((updateAll repaired n s.dir).1 d).stale = (s.dir d).stale := by
       simp only [updateAll, hd, if_true, dupdate]
       split
